@@ -53,7 +53,7 @@ package generic
 //@ func toIds(w, types) (ids)
 //@   props C18
 //@   requires w != nil && regInv(&w.registry)
-//@   flag may_panic
+//@   flag may_panic lfinline
 //@   ensures regInv(&w.registry) && len(ids) == len(types) && compsKnown(w, types, len(types)) && fresh(ids.data)
 //@   ensures forall k int :: {ids[k]} 0 <= k && k < len(types) ==> ids[k].id == w.registry.Components[types[k].val] && validID(ids[k].id)
 //@   ensures forall t ref :: {mapHas(w.registry.Components, t)} old(mapHas(w.registry.Components, t)) ==> mapHas(w.registry.Components, t) && w.registry.Components[t] == old(w.registry.Components[t])
@@ -66,7 +66,7 @@ package generic
 //@ func toMask(w, types) (m)
 //@   props C18
 //@   requires w != nil && regInv(&w.registry)
-//@   flag may_panic
+//@   flag may_panic lfinline
 //@   ensures regInv(&w.registry) && compsKnown(w, types, len(types))
 //@   ensures forall i uint8 :: {bitU(m, i)} bitU(m, i) == compHave(w, types, len(types), i)
 //@   ensures forall t ref :: {mapHas(w.registry.Components, t)} old(mapHas(w.registry.Components, t)) ==> mapHas(w.registry.Components, t) && w.registry.Components[t] == old(w.registry.Components[t])
@@ -83,7 +83,7 @@ package generic
 //@   props C18
 //@   requires w != nil && regInv(&w.registry)
 //@   requires forall k int :: {include[k]} 0 <= k && k < len(include) ==> validID(include[k].id)
-//@   flag may_panic
+//@   flag may_panic lfinline
 //@   ensures regInv(&w.registry) && compsKnown(w, optional, len(optional))
 //@   ensures forall i uint8 :: {bitU(m, i)} bitU(m, i) ==> validID(i) && idHave(include, len(include), i)
 //@   ensures forall k int :: {optional[k]} 0 <= k && k < len(optional) ==> !bitU(m, w.registry.Components[optional[k].val])
@@ -105,7 +105,7 @@ package generic
 //@ func compiledQuery.Compile(q, w, include, optional, exclude, exclusive, targetType, target, hasTarget)
 //@   props C18
 //@   requires w != nil && regInv(&w.registry)
-//@   flag may_panic
+//@   flag may_panic lfinline
 //@   modifies *q, w.registry.Components[ALL], w.registry.Types[ALL], w.registry.Used.bits, w.registry.IsRelation.bits, w.registry.IDs, elems(uint8), all(archetypeData.layouts), all(archetypeAccess.basePointer)
 //@   ghost q.cExclusive := old(q.compiled) ? old(q.cExclusive) : exclusive
 //@   ghost q.cNIncl := old(q.compiled) ? old(q.cNIncl) : len(include)
